@@ -419,7 +419,7 @@ STATIC char const * _soxr_init(
     poly_fir1_t const * f1;
 
     if (!upsample && preM)
-      Fn = 2 * mult, Fs = 3 + fabs(Fs1 - 1);
+      Fn = 2 * mult, Fs = 4 - Fs1;
     else Fn = 1, Fs = 2 - (mode? Fp1 + (Fs1 - Fp1) * .7 : Fs1);
 
     if (mode)
